@@ -1095,7 +1095,7 @@ func genHistory(rt *rapid.T, fork string, p *reg.Preset, tour bool) *Case {
 }
 
 func historySearch(t *testing.T, r *report.Run) {
-	presets := []string{"custom-a", "custom-b", "custom-c", "minimal"}
+	presets := []string{"custom-a", "custom-b", "custom-c", "custom-d", "minimal"}
 	if r.Thorough() {
 		presets = append(presets, "mainnet")
 	}
